@@ -984,7 +984,7 @@ func runC04(c *Ctx) {
 	type sessLag struct{ v, lag int }
 	sessions := []sessLag{{0, 0}, {0, 2}, {1, 0}, {1, 2}, {2, 0}}
 	if c.Thorough() {
-		sessions = []sessLag{{0, 0}, {0, 1}, {0, 2}, {0, 4}, {1, 0}, {1, 1}, {1, 2}, {2, 0}, {2, 1}}
+		sessions = []sessLag{{0, 0}, {0, 1}, {0, 2}, {0, 4}, {1, 0}, {1, 1}, {1, 2}, {1, 3}, {2, 0}, {2, 1}}
 	}
 	for _, sl := range sessions {
 		v, lag := sl.v, sl.lag
@@ -1148,7 +1148,7 @@ func runC04(c *Ctx) {
 	// stress: callers registering requests while the receiver shuts down
 	rounds := 40
 	if c.Thorough() {
-		rounds = 600
+		rounds = 4000
 	}
 	for round := 0; round < rounds; round++ {
 		for _, G := range []int{2, 4, 8} {
